@@ -26,7 +26,8 @@ def cases(tier, seed):
                 fam = name
                 break
         out.append({'prop': ID, 'seed': seed, 'idx': i, 'family': fam})
-    return out
+    from ..witness import WITNESSES
+    return [{'prop': ID, 'seed': seed, 'idx': 10 ** 6 + i, 'witness': i} for i in range(len(WITNESSES))] + out
 
 
 def run_case(case):
